@@ -10,9 +10,9 @@ def member_of(d, violating=0.6, ftype=None, opts=None, prefer=(), only=None):
     p = prog.gen_h(d, opts) if ftype == "h" else prog.gen_c(d, opts)
     p.variant = None
     if d.bool(violating):
-        ops = operators.applicable(p)
+        ops = operators.applicable(p, aux=bool(only))
         if only:
-            ops = [o for o in ops if o["id"] in only] or ops
+            ops = [o for o in ops if o["id"] in only] or operators.applicable(p)
         pref = [o for o in ops if o["id"] in prefer]
         for _ in range(4):
             o = d.choice(pref) if pref and d.bool(0.4) else d.choice(ops)
